@@ -290,13 +290,16 @@ def run(args, prop, meta, tier, seed, run_dir, t_start):
         if flavor == "miri":
             shards, err = miri_shards(prop, tier, seed, nsh, scale, run_dir, st)
         else:
-            binp, err = build(flavor)
+            binp, err = build(st.get("binary_flavor", flavor))
+            if not err and st.get("needs_tool") and shutil.which(st["needs_tool"]) is None:
+                err = "tool %s is not installed" % st["needs_tool"]
             shards = []
             if not err:
                 for i in range(nsh):
                     out = os.path.join(run_dir, "%s-%d.json" % (flavor, i))
                     ann = os.path.join(run_dir, "%s-%d.ann" % (flavor, i))
-                    cmd = list(st.get("wrapper", [])) + [binp, prop, "--tier", tier, "--seed", str(seed), "--shard", str(i),
+                    wrapper = [w.replace("{log}", os.path.join(run_dir, "%s-%d.trace" % (flavor, i))) for w in st.get("wrapper", [])]
+                    cmd = wrapper + [binp, prop, "--tier", tier, "--seed", str(seed), "--shard", str(i),
                            "--nshards", str(nsh), "--out", out, "--announce", ann, "--flavor", flavor,
                            "--scale", str(scale), "--run-dir", run_dir]
                     env = dict(ENV)
@@ -313,6 +316,8 @@ def run(args, prop, meta, tier, seed, run_dir, t_start):
         t0 = time.time()
         run_shards(shards, st.get("timeout", timeout_s))
         log("[run] %s: %d shards of %s/%s finished in %.1fs" % (flavor, len(shards), prop, tier, time.time() - t0))
+        if st.get("post"):
+            post_process(prop, tier, seed, st, flavor, shards, run_dir, merged, stage_notes)
         for s in shards:
             if s.status == "ok":
                 try:
@@ -484,6 +489,59 @@ def handle_lost_shard(prop, tier, seed, s, flavor, st, merged, inconclusive, run
     else:
         inconclusive.append("shard %s/%d %s at case %s (rc=%s) but the case alone ends with %s; log tail: %s"
                             % (flavor, s.idx, s.status, case_no, s.rc, rs.status, tail[-300:].replace("\n", " | ")))
+
+
+def post_process(prop, tier, seed, st, flavor, shards, run_dir, merged, stage_notes):
+    """Offline checkers over tool logs: strace descriptor lifecycle, valgrind --track-fds."""
+    kind = st["post"]
+    for s in shards:
+        trace = os.path.join(run_dir, "%s-%d.trace" % (flavor, s.idx))
+        case = {"mode": "regen", "tier": tier, "seed": seed, "shard": s.idx, "nshards": int(st.get("shards", 1)), "case_no": 0, "flavor": flavor}
+        if kind == "strace_fd_lifecycle":
+            # every close() of the process must succeed: a close that fails with EBADF is a second close of a
+            # descriptor that was already handed out and closed (or of a number that was never open)
+            n_close = n_bad = n_rights = 0
+            first_bad = None
+            try:
+                with open(trace, errors="replace") as f:
+                    for line in f:
+                        if "close(" in line and ") = " in line:
+                            n_close += 1
+                            if "EBADF" in line:
+                                n_bad += 1
+                                first_bad = first_bad or line.strip()
+                        elif "SCM_RIGHTS" in line and "recvmsg(" in line:
+                            n_rights += 1
+            except OSError:
+                stage_notes.append("strace log of shard %d missing (ptrace not permitted?)" % s.idx)
+                continue
+            merged["counters"]["strace:close_calls_observed"] = merged["counters"].get("strace:close_calls_observed", 0) + n_close
+            merged["counters"]["strace:recvmsg_with_scm_rights_observed"] = merged["counters"].get("strace:recvmsg_with_scm_rights_observed", 0) + n_rights
+            if n_bad:
+                merged["violations"].append({"sig": "%s:close-of-closed-descriptor" % prop,
+                                             "detail": "strace saw %d close() calls fail with EBADF, first: %s" % (n_bad, first_bad),
+                                             "case": case, "flavor": flavor})
+        elif kind == "valgrind_track_fds":
+            try:
+                with open(trace, errors="replace") as f:
+                    text = f.read()
+            except OSError:
+                stage_notes.append("valgrind log of shard %d missing" % s.idx)
+                continue
+            leaked = []
+            for m in re.finditer(r"Open (AF_UNIX socket|file descriptor) (\d+):\s*(.*)", text):
+                what, fd, rest = m.group(1), int(m.group(2)), m.group(3).strip()
+                if fd <= 2 or "<inherited from parent>" in text[m.end():m.end() + 120]:
+                    continue
+                # the shard's own report / announce files are expected; sockets, eventfds and /dev/null are not
+                if what.startswith("AF_UNIX") or "eventfd" in rest or rest.startswith("/dev/null") or "socket" in rest:
+                    leaked.append("%s %d %s" % (what, fd, rest))
+            merged["counters"]["valgrind:exit_descriptor_reports_checked"] = merged["counters"].get("valgrind:exit_descriptor_reports_checked", 0) + 1
+            errs = re.search(r"ERROR SUMMARY: (\d+) errors", text)
+            if errs and int(errs.group(1)) > 0:
+                merged["violations"].append({"sig": "%s:valgrind-memcheck" % prop, "detail": "memcheck reported %s errors; log tail: %s" % (errs.group(1), text[-1500:]), "case": case, "flavor": flavor})
+            if leaked:
+                merged["violations"].append({"sig": "%s:descriptor-open-at-exit" % prop, "detail": "valgrind --track-fds: still open at exit: %s" % "; ".join(leaked[:6]), "case": case, "flavor": flavor})
 
 
 def describe_syscall(line):
